@@ -38,6 +38,8 @@ ghost("runs", "int")
 # ---- against them in contracts/async_cli.py and contracts/hpc_submitter.py) ---------------------
 contract("AsyncJob.is_complete", kind="assumed",
          params=[("self", "Ref[AsyncJob]")], returns="bool",
+         # a node-level job must not be polled again once it was seen complete (AsyncCliCommand asserts on it); canceled jobs and batches may be
+         requires=["not self.g_done or self.g_canceled or self.g_is_batch"],
          ensures=["result == self.g_done", "implies(old(self.g_done), self.g_done)",
                   "implies(result, not isnone(self.return_code))",
                   "self.g_launched == old(self.g_launched) and self.g_canceled == old(self.g_canceled)",
@@ -49,13 +51,15 @@ contract("AsyncJob.is_complete", kind="assumed",
 contract("AsyncJob.run", kind="assumed",
          params=[("self", "Ref[AsyncJob]")], returns="Enum[Status]",
          ensures=["self.g_launched == old(self.g_launched) + 1", "ghost.runs == old(ghost.runs) + 1",
-                  "implies(result == Status.GOOD and self.g_is_batch, not isnone(self.job_id))"],
+                  "implies(result == Status.GOOD and self.g_is_batch, not isnone(self.job_id))",
+                  "implies(result == Status.GOOD, not self.g_done or self.g_is_batch)"],
          modifies=["self.g_launched", "self.g_done", "self.return_code", "self.job_id", "ghost.runs"],
          note="AsyncJobInterface.run: starts the job's process (or sbatch) exactly once per call")
 contract("AsyncJob.cancel", kind="assumed",
          params=[("self", "Ref[AsyncJob]")],
-         ensures=["self.g_canceled and self.g_done", "self.return_code == 1", "self.g_launched == old(self.g_launched)"],
-         modifies=["self.g_canceled", "self.g_done", "self.return_code"],
+         ensures=["self.g_canceled and self.g_done", "self.return_code == 1", "self.g_launched == old(self.g_launched)",
+                  "subset(old(ghost.collected), ghost.collected) and subset(old(ghost.collected_failed), ghost.collected_failed)"],
+         modifies=["self.g_canceled", "self.g_done", "self.return_code", "ghost.collected", "ghost.collected_failed"],
          note="AsyncJobInterface.cancel: records a canceled result, never starts the process")
 contract("AsyncJob.get_blocking_jobs", kind="assumed", pure=True,
          params=[("self", "Ref[AsyncJob]")], returns="Set[Name]", ensures=["result == self.blocking"])
@@ -73,8 +77,11 @@ contract("JobQueue.is_full", file=F, inline=True, params=[("self", "Ref[JobQueue
 contract("JobQueue.outstanding_jobs", file=F, inline=True, params=[("self", "Ref[JobQueue]")], returns="List[Ref[AsyncJob]]")
 
 define("nout", ["q"], "card(keys(q._outstanding_jobs))")
+define("COUNT", ["q"], "q._num_jobs - q._num_completed - nout(q)")
 # capacity invariant (C06)
 define("Inv_cap", ["q"], "nout(q) <= q._queue_depth")
+# no outstanding node-level job has already been seen complete (it would be popped); canceled jobs and batches may be polled again
+define("OUT_OK", ["q"], "forall(x, q._outstanding_jobs, not q._outstanding_jobs[x].g_done or q._outstanding_jobs[x].g_canceled or q._outstanding_jobs[x].g_is_batch)")
 define("BATCH_ONLY", ["q"], "len(q._queued_jobs) == 0 and forall(x, q._outstanding_jobs, q._outstanding_jobs[x].g_is_batch)")
 # every outstanding entry of a submitter's queue is an allocated batch with a scheduler id
 define("Inv_ids", ["q"], "forall(x, q._outstanding_jobs, allocated(q._outstanding_jobs[x]) and q._outstanding_jobs[x].g_is_batch and not isnone(q._outstanding_jobs[x].job_id))")
@@ -84,8 +91,10 @@ contract("JobQueue._run_job", file=F,
          params=[("self", "Ref[JobQueue]"), ("job", "Ref[AsyncJob]")],
          requires=["nout(self) < self._queue_depth",          # C06: only called with a free slot
                    "empty(job.blocking)",                      # C02: never called for a job that still has blockers
-                   "forall(x, self._outstanding_jobs, self._outstanding_jobs[x] != job)"],   # C01: a job object is started at most once
-         ensures=["job.g_launched == old(job.g_launched) + 1", "ghost.runs == old(ghost.runs) + 1",
+                   "forall(x, self._outstanding_jobs, self._outstanding_jobs[x] != job)",    # C01: a job object is started at most once
+                   "job.name not in self._outstanding_jobs"],                                 # A-names: queue names are unique
+         ensures=["job.g_launched == old(job.g_launched) + 1", "ghost.runs == old(ghost.runs) + 1", "COUNT(self) == old(COUNT(self))",
+                  "unchanged(AsyncJob.g_canceled) and unchanged(AsyncJob.blocking) and unchanged(AsyncJob.name)",
                   "unchanged(AsyncJob.g_launched, job)",
                   "Inv_cap(self)",
                   "forall(x, Name, implies(x != job.name, (x in self._outstanding_jobs) == (x in old(self._outstanding_jobs)) "
@@ -94,13 +103,14 @@ contract("JobQueue._run_job", file=F,
                   "nout(self) <= old(nout(self)) + 1 and nout(self) >= old(nout(self))",
                   "self._queued_jobs == old(self._queued_jobs)",
                   "unchanged(AsyncJob.job_id, job) and unchanged(AsyncJob.g_is_batch)",
+                  "implies(old(OUT_OK(self)), OUT_OK(self))",
                   "implies(job.g_is_batch and allocated(job) and old(Inv_ids(self)), Inv_ids(self))"],
          modifies=["self._num_jobs", "self._outstanding_jobs", "AsyncJob.g_launched", "AsyncJob.g_done", "AsyncJob.return_code", "AsyncJob.job_id", "ghost.runs"])
 
 contract("JobQueue.submit", file=F,
          params=[("self", "Ref[JobQueue]"), ("job", "Ref[AsyncJob]")],
-         requires=["Inv_cap(self)", "forall(x, self._outstanding_jobs, self._outstanding_jobs[x] != job)"],
-         ensures=["Inv_cap(self)",
+         requires=["Inv_cap(self)", "forall(x, self._outstanding_jobs, self._outstanding_jobs[x] != job)", "job.name not in self._outstanding_jobs"],
+         ensures=["Inv_cap(self)", "COUNT(self) == old(COUNT(self))",
                   "self._queue_depth == old(self._queue_depth)",
                   # started at once iff there is a free slot and nothing blocks it; otherwise queued, not started
                   "implies(old(nout(self)) < self._queue_depth and empty(job.blocking), job.g_launched == old(job.g_launched) + 1 "
@@ -114,7 +124,15 @@ contract("JobQueue.submit", file=F,
                   "forall(x, Name, implies(x != job.name, (x in self._outstanding_jobs) == (x in old(self._outstanding_jobs)) "
                   "and self._outstanding_jobs[x] == old(self._outstanding_jobs)[x]))",
                   "unchanged(AsyncJob.job_id, job) and unchanged(AsyncJob.g_is_batch)",
-                  "implies(job.g_is_batch and allocated(job) and old(Inv_ids(self)), Inv_ids(self))"],
+                  "implies(job.g_is_batch and allocated(job) and old(Inv_ids(self)), Inv_ids(self))",
+                  # the queue stays well-formed when a new (never started, not canceled, uniquely named) job is handed in
+                  "implies(old(Inv_q(self)) and not old(job.g_canceled) and old(job.g_launched) == 0 "
+                  "and forall(i, range(len(old(self._queued_jobs))), old(self._queued_jobs)[i].name != job.name and old(self._queued_jobs)[i] != job), Inv_q(self))",
+                  "unchanged(AsyncJob.g_canceled) and unchanged(AsyncJob.name) and unchanged(AsyncJob.blocking)",
+                  "implies(old(OUT_OK(self)), OUT_OK(self))",
+                  "implies(job.name in self._outstanding_jobs, self._outstanding_jobs[job.name] == job or job.name in old(self._outstanding_jobs))",
+                  "forall(i, range(old(len(self._queued_jobs))), self._queued_jobs[i] == old(self._queued_jobs)[i])",
+                  "len(self._queued_jobs) >= old(len(self._queued_jobs)) and len(self._queued_jobs) <= old(len(self._queued_jobs)) + 1"],
          modifies=["self._num_jobs", "self._outstanding_jobs", "self._queued_jobs", "AsyncJob.g_launched", "AsyncJob.g_done", "AsyncJob.return_code",
                    "AsyncJob.job_id", "ghost.runs"])
 
@@ -138,26 +156,213 @@ contract("JobQueue.__init__", file=F, qualname="JobQueue.__init__",
          modifies=["self._queue_depth", "self._poll_interval", "self._outstanding_jobs", "self._queued_jobs", "self._num_jobs",
                    "self._num_completed", "self._monitor_func", "self._last_monitor_time", "self._monitor_interval"])
 
+contract("JobQueue._handle_monitor_func", kind="assumed",
+         params=[("self", "Ref[JobQueue]"), ("force", "bool", "False")], modifies=["self._last_monitor_time"],
+         note="calls the resource monitor callback with the outstanding jobs' ids; no effect on the queue")
+
+# ---- completion handling on a node (C02, C04, C06) ------------------------------------------------------------
+# Queue well-formedness: keys are the jobs' names, queued jobs are neither canceled nor started, names are unique (A-names)
+define("OUT", ["q"], "q._outstanding_jobs")
+define("QD", ["q"], "q._queued_jobs")
+define("Inv_q", ["q"], """(
+    forall(x, OUT(q), OUT(q)[x].name == x and (not OUT(q)[x].g_done or OUT(q)[x].g_canceled or OUT(q)[x].g_is_batch))
+    and forall(i, range(len(QD(q))), not QD(q)[i].g_canceled and QD(q)[i].g_launched == 0 and QD(q)[i].name not in OUT(q))
+    and forall(i, range(len(QD(q))), forall(j, range(i), QD(q)[i].name != QD(q)[j].name and QD(q)[i] != QD(q)[j])))""")
+# COUNT (defined above): started-but-not-completed bookkeeping, zero for a queue that started all its jobs itself (JobQueue.wait's assert)
+
+CC_DEFS = {
+    "Q0": ([], "old(self._queued_jobs)"),
+    "O0": ([], "old(self._outstanding_jobs)"),
+    "BOUND": ([], "(len(loop_old(QD(self))) if _k5 == 0 else canceled_indices[len(canceled_indices) - _k5])"),
+}
+CC_COMMON = [
+    "ghost.runs == old(ghost.runs) and unchanged(AsyncJob.g_launched) and unchanged(AsyncJob.name) and unchanged(AsyncJob.cancel_on_blocking_job_failure)",
+    "unchanged(AsyncJob.g_is_batch)",
+    "implies(old(BATCH_ONLY(self)), ghost.collected == old(ghost.collected) and ghost.collected_failed == old(ghost.collected_failed) and len(QD(self)) == 0 and forall(x, OUT(self), OUT(self)[x].g_is_batch))",
+    "self._queue_depth == old(self._queue_depth)",
+    "forall(x, OUT(self), OUT(self)[x].name == x)",
+]
+# clauses about `outstanding`: an entry is an original one, or a job canceled here (complete, waiting to be popped by the next pass)
+A_ = "(x in O0() and OUT(self)[x] == O0()[x])"
+B_ = "(OUT(self)[x].g_canceled and OUT(self)[x].g_done)"
+QUEUED_OK = [   # facts about the current queue that hold between the inner loops
+    "forall(i, range(len(QD(self))), forall(j, range(i), QD(self)[i].name != QD(self)[j].name and QD(self)[i] != QD(self)[j]))",
+    "len(QD(self)) <= len(Q0())",
+    "forall(i, range(len(QD(self))), exists(p, range(len(Q0())), Q0()[p] == QD(self)[i]))",
+    "forall(p, range(len(Q0())), exists(i, range(len(QD(self))), QD(self)[i] == Q0()[p]) "
+    "or (Q0()[p].g_canceled and Q0()[p].cancel_on_blocking_job_failure and empty(Q0()[p].blocking)))",
+    "forall(j, QD(self), subset(j.blocking, old(j.blocking)))",
+    "forall(r, AsyncJob, implies(old(r.g_canceled), r.g_canceled)) and forall(r, AsyncJob, implies(old(r.g_done), r.g_done))",
+]
+NOT_CANCELED = "forall(i, range(len(QD(self))), not QD(self)[i].g_canceled and QD(self)[i].name not in OUT(self))"
+LISTED = "exists(t, range(len(completed_jobs)), completed_jobs[t] == x)"
+contract("JobQueue._check_completions", file=F,
+         params=[("self", "Ref[JobQueue]")],
+         locals={"failed_jobs": "Set[Name]", "completed_jobs": "List[Name]", "canceled_indices": "List[int]"},
+         defs=CC_DEFS,
+         requires=["Inv_q(self)"],
+         ensures=CC_COMMON + [
+             "Inv_q(self)", "COUNT(self) == old(COUNT(self))",
+             # C04/C06: nothing is started here; entries only leave `outstanding`; a queued job leaves only by being canceled
+             f"forall(x, OUT(self), {A_})",
+             "card_subset_hint(keys(OUT(self)), keys(O0()))",
+             "nout(self) <= old(nout(self))",
+         ] + QUEUED_OK[1:5],
+         raises={"ExecutionError": {"ensures": ["ghost.runs == old(ghost.runs)",
+                                                "implies(old(BATCH_ONLY(self)), ghost.collected == old(ghost.collected) and ghost.collected_failed == old(ghost.collected_failed))"],
+                                    "frame": False}},
+         loops={
+             1: {"invariant": CC_COMMON + QUEUED_OK + [
+                 NOT_CANCELED,
+                 "COUNT(self) == old(COUNT(self))",
+                 f"forall(x, OUT(self), {A_} or {B_})",
+                 f"need_to_rerun or forall(x, OUT(self), {A_})",
+                 "forall(x, OUT(self), (not OUT(self)[x].g_done or OUT(self)[x].g_canceled or OUT(self)[x].g_is_batch))",
+             ]},
+             2: {"invariant": CC_COMMON + [
+                 "forall(t, range(len(completed_jobs)), completed_jobs[t] in _seen2 and completed_jobs[t] in OUT(self))",
+                 "forall(t, range(len(completed_jobs)), forall(u, range(t), completed_jobs[t] != completed_jobs[u]))",
+                 f"forall(x, _seen2, OUT(self)[x].g_done == {LISTED})",
+                 "forall(x, OUT(self), implies(x not in _seen2, OUT(self)[x].g_done == loop_old(OUT(self)[x].g_done)))",
+                 "subset(_seen2, keys(OUT(self)))",
+                 "forall(r, AsyncJob, implies(old(r.g_done), r.g_done)) and forall(r, AsyncJob, implies(loop_old(r.g_done), r.g_done))",
+             ]},
+             3: {"invariant": CC_COMMON + QUEUED_OK + [
+                 NOT_CANCELED,
+                 "forall(t, range(_k3, len(completed_jobs)), completed_jobs[t] in OUT(self))",
+                 "forall(t, range(len(completed_jobs)), forall(u, range(t), completed_jobs[t] != completed_jobs[u]))",
+                 "COUNT(self) == old(COUNT(self)) - (len(completed_jobs) - _k3)",
+                 f"forall(x, OUT(self), {A_} or ({B_} and (need_to_rerun or exists(t, range(_k3, len(completed_jobs)), completed_jobs[t] == x))))",
+                 "forall(x, OUT(self), (not OUT(self)[x].g_done or OUT(self)[x].g_canceled or OUT(self)[x].g_is_batch) or exists(t, range(_k3, len(completed_jobs)), completed_jobs[t] == x))",
+             ]},
+             4: {"invariant": CC_COMMON + QUEUED_OK + [
+                 # canceled_indices: strictly increasing positions below the cursor, exactly the canceled queue entries
+                 "forall(t, range(len(canceled_indices)), 0 <= canceled_indices[t] and canceled_indices[t] < _k4 "
+                 "and canceled_indices[t] <= _k4 - (len(canceled_indices) - t))",
+                 "forall(t, range(len(canceled_indices)), forall(u, range(t), canceled_indices[u] < canceled_indices[t]))",
+                 "forall(p, range(len(QD(self))), QD(self)[p].g_canceled == exists(t, range(len(canceled_indices)), canceled_indices[t] == p))",
+                 "forall(p, range(len(QD(self))), implies(QD(self)[p].g_canceled, QD(self)[p].cancel_on_blocking_job_failure and empty(QD(self)[p].blocking) "
+                 "and QD(self)[p].g_done and QD(self)[p].name in OUT(self) and OUT(self)[QD(self)[p].name] == QD(self)[p]))",
+                 "forall(p, range(len(QD(self))), implies(not QD(self)[p].g_canceled, QD(self)[p].name not in OUT(self)))",
+                 "forall(t, range(_k3 + 1, len(completed_jobs)), completed_jobs[t] in OUT(self))",
+                 "COUNT(self) == old(COUNT(self)) - (len(completed_jobs) - _k3 - 1)",
+                 f"forall(x, OUT(self), {A_} or ({B_} and (need_to_rerun or exists(t, range(_k3 + 1, len(completed_jobs)), completed_jobs[t] == x))))",
+                 "len(canceled_indices) == 0 or need_to_rerun",
+                 "forall(x, OUT(self), (not OUT(self)[x].g_done or OUT(self)[x].g_canceled or OUT(self)[x].g_is_batch) or exists(t, range(_k3 + 1, len(completed_jobs)), completed_jobs[t] == x))",
+             ]},
+             5: {"invariant": CC_COMMON + [
+                 "len(QD(self)) == len(loop_old(QD(self))) - _k5",
+                 # below the next index to pop the list is untouched; from there on only jobs that stay (not canceled), each from the old list
+                 "forall(p, range(BOUND()), p < len(QD(self)) and QD(self)[p] == loop_old(QD(self))[p])",
+                 "forall(p, range(BOUND(), len(QD(self))), not QD(self)[p].g_canceled and exists(q, range(BOUND(), len(loop_old(QD(self)))), loop_old(QD(self))[q] == QD(self)[p]))",
+                 "forall(q, range(BOUND(), len(loop_old(QD(self)))), implies(not loop_old(QD(self))[q].g_canceled, "
+                 "exists(p, range(BOUND(), len(QD(self))), QD(self)[p] == loop_old(QD(self))[q])))",
+                 "BOUND() <= len(QD(self))",
+                 "forall(i, range(len(QD(self))), forall(j, range(i), QD(self)[i].name != QD(self)[j].name and QD(self)[i] != QD(self)[j]))",
+                 "forall(j, QD(self), subset(j.blocking, old(j.blocking)))",
+             ]},
+         },
+         modifies=["self._outstanding_jobs", "self._queued_jobs", "self._num_jobs", "self._num_completed",
+                   "AsyncJob.g_done", "AsyncJob.return_code", "AsyncJob.g_canceled", "AsyncJob.blocking",
+                   "ghost.collected", "ghost.collected_failed"])
+
+
+# ---- process_queue: collect completions, then start queued jobs that are free to run (C02, C06) ---------------------
+PQ_DEFS = {
+    "Q0": ([], "old(self._queued_jobs)"),
+    "O0": ([], "old(self._outstanding_jobs)"),
+    "QL": ([], "loop_old(self._queued_jobs)"),
+    "started": (["r"], "r.g_launched == old(r.g_launched) + 1"),
+    "BOUND": ([], "(len(loop_old(QD(self))) if _k2 == 0 else jobs_to_pop[len(jobs_to_pop) - _k2])"),
+}
+PQ_COMMON = [
+    "self._queue_depth == old(self._queue_depth) and unchanged(AsyncJob.name)",
+    "forall(r, AsyncJob, r.g_canceled == loop_old(r.g_canceled) and r.blocking == loop_old(r.blocking))",
+    "forall(x, OUT(self), OUT(self)[x].name == x)",
+    # C02: whatever was started had no blockers left, and was started exactly once
+    "forall(r, AsyncJob, r.g_launched == old(r.g_launched) or (started(r) and empty(r.blocking) and exists(p, range(len(Q0())), Q0()[p] == r)))",
+]
 contract("JobQueue.process_queue", file=F,
          params=[("self", "Ref[JobQueue]")],
-         requires=["Inv_cap(self) or len(self._queued_jobs) == 0"],
+         locals={"jobs_to_pop": "List[int]"},
+         defs=PQ_DEFS,
+         requires=["Inv_q(self)", "Inv_cap(self)"],
          ensures=[
-             "self._queue_depth == old(self._queue_depth)",
-             "implies(old(Inv_cap(self)), Inv_cap(self))",
+             "Inv_q(self)", "Inv_cap(self)",                     # C06: never more than depth outstanding
+             "self._queue_depth == old(self._queue_depth)", "COUNT(self) == old(COUNT(self))",
+             # C02: a job started by this call was queued, had an empty blocker set, and was started exactly once
+             "forall(r, AsyncJob, r.g_launched == old(r.g_launched) or (r.g_launched == old(r.g_launched) + 1 and empty(r.blocking) "
+             "and exists(p, range(len(Q0())), Q0()[p] == r)))",
+             "len(QD(self)) <= len(Q0())",
+             "forall(i, range(len(QD(self))), exists(p, range(len(Q0())), Q0()[p] == QD(self)[i]))",
              # a submitter's queue never holds queued jobs: then nothing is started, entries only leave, and only when complete (C06/C18)
              "implies(old(len(self._queued_jobs)) == 0, len(self._queued_jobs) == 0 and ghost.runs == old(ghost.runs))",
              "implies(old(len(self._queued_jobs)) == 0, forall(x, self._outstanding_jobs, x in old(self._outstanding_jobs) "
              "and self._outstanding_jobs[x] == old(self._outstanding_jobs)[x]))",
-             "implies(old(len(self._queued_jobs)) == 0, forall(x, old(self._outstanding_jobs), x in self._outstanding_jobs or old(self._outstanding_jobs)[x].g_done))",
              "implies(old(len(self._queued_jobs)) == 0, nout(self) <= old(nout(self)))",
+             "implies(old(len(self._queued_jobs)) == 0, unchanged(AsyncJob.job_id) and unchanged(AsyncJob.g_launched))",
+             "unchanged(AsyncJob.g_is_batch) and unchanged(AsyncJob.name)",
              "implies(old(BATCH_ONLY(self)), ghost.collected == old(ghost.collected) and ghost.collected_failed == old(ghost.collected_failed))",
          ],
-         raises={"ExecutionError": {"ensures": ["self._outstanding_jobs == old(self._outstanding_jobs) and self._queued_jobs == old(self._queued_jobs)",
-                                                "ghost.runs == old(ghost.runs)",
+         raises={"ExecutionError": {"ensures": ["ghost.runs == old(ghost.runs)",
                                                 "implies(old(BATCH_ONLY(self)), ghost.collected == old(ghost.collected) and ghost.collected_failed == old(ghost.collected_failed))"],
                                     "frame": False},
-                 # any other failure while polling (C11): with an empty queue nothing is ever started
                  "AnyException": {"ensures": ["implies(old(len(self._queued_jobs)) == 0, ghost.runs == old(ghost.runs))"], "frame": False}},
+         loops={
+             1: {"invariant": PQ_COMMON + [
+                 "forall(t, range(len(jobs_to_pop)), 0 <= jobs_to_pop[t] and jobs_to_pop[t] < _k1 and jobs_to_pop[t] <= _k1 - (len(jobs_to_pop) - t))",
+                 "forall(t, range(len(jobs_to_pop)), forall(u, range(t), jobs_to_pop[u] < jobs_to_pop[t]))",
+                 "len(jobs_to_pop) < available_jobs and available_jobs == self._queue_depth - loop_old(nout(self))",
+                 "nout(self) <= loop_old(nout(self)) + len(jobs_to_pop) and nout(self) >= loop_old(nout(self))",
+                 "forall(p, range(len(QD(self))), started(QD(self)[p]) == exists(t, range(len(jobs_to_pop)), jobs_to_pop[t] == p))",
+                 "forall(p, range(len(QD(self))), implies(not started(QD(self)[p]), QD(self)[p].name not in OUT(self) "
+                 "and QD(self)[p].g_launched == old(QD(self)[p].g_launched)))",
+                 "forall(x, OUT(self), (x in loop_old(OUT(self)) and OUT(self)[x] == loop_old(OUT(self))[x]) "
+                 "or exists(p, range(_k1), QD(self)[p] == OUT(self)[x] and started(QD(self)[p])))",
+                 "COUNT(self) == loop_old(COUNT(self))",
+                 "ghost.runs == loop_old(ghost.runs) + len(jobs_to_pop)",
+                 "OUT_OK(self)",
+             ]},
+             2: {"invariant": [
+                 "len(QD(self)) == len(QL()) - _k2",
+                 "forall(p, range(BOUND()), p < len(QD(self)) and QD(self)[p] == QL()[p])",
+                 "forall(p, range(BOUND(), len(QD(self))), not started(QD(self)[p]) and exists(q, range(BOUND(), len(QL())), QL()[q] == QD(self)[p]))",
+                 "BOUND() <= len(QD(self))",
+                 "forall(i, range(len(QD(self))), forall(j, range(i), QD(self)[i].name != QD(self)[j].name and QD(self)[i] != QD(self)[j]))",
+             ]},
+         },
          modifies=["self._outstanding_jobs", "self._queued_jobs", "self._num_jobs", "self._num_completed", "self._last_monitor_time", "ghost.runs",
-                   "AsyncJob.g_done", "AsyncJob.return_code", "AsyncJob.g_launched", "AsyncJob.g_canceled", "AsyncJob.blocking",
+                   "AsyncJob.g_done", "AsyncJob.return_code", "AsyncJob.g_launched", "AsyncJob.g_canceled", "AsyncJob.blocking", "AsyncJob.job_id",
+                   "HpcStatusCollector._statuses", "HpcStatusCollector._last_poll_time", "ghost.last_status", "ghost.collected", "ghost.collected_failed"])
+
+
+# ---- synchronous use on a node: run all jobs to completion --------------------------------------------------------
+contract("JobQueue.wait", file=F, params=[("self", "Ref[JobQueue]")],
+         requires=["Inv_q(self)", "Inv_cap(self)", "COUNT(self) == 0"],
+         ensures=["Inv_q(self)", "Inv_cap(self)", "empty(self._outstanding_jobs) and len(self._queued_jobs) == 0",
+                  "self._queue_depth == old(self._queue_depth)"],
+         raises={"ExecutionError": {"ensures": [], "frame": False}},
+         loops={1: {"invariant": ["Inv_q(self)", "Inv_cap(self)", "COUNT(self) == 0", "self._queue_depth == old(self._queue_depth)"]}},
+         modifies=["self._outstanding_jobs", "self._queued_jobs", "self._num_jobs", "self._num_completed", "self._last_monitor_time", "ghost.runs",
+                   "AsyncJob.g_done", "AsyncJob.return_code", "AsyncJob.g_launched", "AsyncJob.g_canceled", "AsyncJob.blocking", "AsyncJob.job_id",
+                   "HpcStatusCollector._statuses", "HpcStatusCollector._last_poll_time", "ghost.last_status", "ghost.collected", "ghost.collected_failed"])
+
+NEWJOBS = ["forall(i, range(len(jobs)), not jobs[i].g_canceled and jobs[i].g_launched == 0 and jobs[i].name not in OUT(self))",
+           "forall(i, range(len(jobs)), forall(j, range(i), jobs[i].name != jobs[j].name and jobs[i] != jobs[j]))",
+           "forall(i, range(len(jobs)), forall(p, range(len(QD(self))), QD(self)[p].name != jobs[i].name and QD(self)[p] != jobs[i]))"]
+contract("JobQueue.run", file=F, params=[("self", "Ref[JobQueue]"), ("jobs", "List[Ref[AsyncJob]]")],
+         requires=["Inv_q(self)", "Inv_cap(self)", "COUNT(self) == 0", "len(QD(self)) == 0 and empty(OUT(self))"] + NEWJOBS,
+         ensures=["empty(self._outstanding_jobs) and len(self._queued_jobs) == 0", "self._queue_depth == old(self._queue_depth)"],
+         raises={"ExecutionError": {"ensures": [], "frame": False}},
+         loops={1: {"invariant": [
+             "Inv_q(self)", "Inv_cap(self)", "COUNT(self) == 0", "self._queue_depth == old(self._queue_depth)",
+             "unchanged(AsyncJob.name) and unchanged(AsyncJob.g_canceled)",
+             # jobs not yet handed in are untouched and still unknown to the queue
+             "forall(i, range(_k1, len(jobs)), jobs[i].g_launched == 0 and jobs[i].name not in OUT(self) "
+             "and forall(p, range(len(QD(self))), QD(self)[p].name != jobs[i].name and QD(self)[p] != jobs[i]))",
+             "forall(x, OUT(self), exists(i, range(_k1), jobs[i] == OUT(self)[x]))",
+             "forall(p, range(len(QD(self))), exists(i, range(_k1), jobs[i] == QD(self)[p]))",
+         ]}},
+         modifies=["self._outstanding_jobs", "self._queued_jobs", "self._num_jobs", "self._num_completed", "self._last_monitor_time", "ghost.runs",
+                   "AsyncJob.g_done", "AsyncJob.return_code", "AsyncJob.g_launched", "AsyncJob.g_canceled", "AsyncJob.blocking", "AsyncJob.job_id",
                    "HpcStatusCollector._statuses", "HpcStatusCollector._last_poll_time", "ghost.last_status", "ghost.collected", "ghost.collected_failed"])
